@@ -49,6 +49,18 @@ Theorem C15_operator_text : forall m v, printable v = true ->
   parse_single m ("~=" ++ to_string v) = Ok (VOne (compat_range (reparsed v))).
 Proof. intros m v P. repeat split; [exact (clause_caret m v P)|exact (clause_tilde m v P)|exact (clause_compatible m v P)]. Qed.
 Print Assumptions C15_operator_text.
+(* from the text of the clause to its meaning: '^V' (likewise '~V', '~=V' with C15_tilde / C15_compatible_release) read from text admits V
+   and rejects its upper bound together with the bound's pre- and dev-releases *)
+Theorem C15_caret_text_meaning : forall m v, printable v = true ->
+  exists r, parse_single m ("^" ++ to_string v) = Ok (VOne r) /\
+    r_allows r (reparsed v) = true /\
+    forall x, wf x = true -> same_class x (next_breaking (reparsed v)) = true -> vltb (next_breaking (reparsed v)) x = false -> r_allows r x = false.
+Proof.
+  intros m v P. exists (caret_range (reparsed v)). split; [exact (clause_caret m v P)|].
+  assert (W : wf (reparsed v) = true) by (unfold printable in P; apply Bool.andb_true_iff in P as [W _]; exact W).
+  exact (caret_spec (reparsed v) W).
+Qed.
+Print Assumptions C15_caret_text_meaning.
 (* instances with blanks and a pre-release, and what is printed back *)
 Example C15_desugar :
   exists v, parse "0.2.3rc1" = Some v /\ wf v = true /\
